@@ -117,6 +117,19 @@ class Spec(PropSpec):
             c = F.gen_safe(rng, stale=0.0, crash=0.1, tokio=0.5, setup_sync=2, sync_prob=rng.choice([0.0, 0.4]))
             c["flavour"] += "+tokio"
             cases.append(c)
+        # renames of files whose data is synced (outside every known class; not covered by the theorem):
+        # within a directory, across directories, out of never-synced directories, onto existing files,
+        # followed by directory syncs in every order and a crash
+        sc = F.rename_scenarios(rng)
+        cases += sc if not q else rng.sample(sc, 140)
+        cases += [F.gen_clean_rename(rng, crash=0.1, setup_sync=rng.choice([1, 2, 2]), syncs=0.2,
+                                     block_size=rng.choice([None, None, 2]), sync_prob=rng.choice([0.0, 0.0, 0.3]))
+                  for _ in range(110 * k)]
+        for _ in range(30 * k):
+            c = F.gen_clean_rename(rng, crash=0.12, setup_sync=rng.choice([1, 2]), syncs=0.2)
+            c["cfg"]["via"] = "sim"
+            c["flavour"] += "+Sim::crash"
+            cases.append(c)
         # the same scripts inside a running turmoil::Sim, crash = Sim::crash + Sim::bounce
         for _ in range(70 * k):
             c = F.gen_safe(rng, stale=0.0, crash=0.12, setup_sync=rng.choice([1, 2, 2]), nhosts=rng.choice([1, 1, 2]),
@@ -142,18 +155,23 @@ class Spec(PropSpec):
         d = F.compare(case, obs, impl_m, probes)
         if d:
             return d
-        py = sorted(KLASS_IDS[k] for k in F.history_features(case, obs) if k in KLASS_IDS)
+        feats_all = F.history_features(case, obs)
+        py = sorted(KLASS_IDS[k] for k in feats_all if k in KLASS_IDS)
         if not any(dur_flags) and py != sorted(set(klasses)):
             return "known-class predicates disagree: python %s, FsDurable.v %s" % (py, sorted(set(klasses)))
         # the side condition of c07_crash_image (one host): alphabet, no known class, no KindSwap,
         # no crash on a dangling durable subtree -- must be what the generators call "safe"
         if case["cfg"].get("nhosts", 1) == 1:
-            feats = F.history_features(case, obs)
+            feats = feats_all
             alphabet = not any(st[0].split("@")[0] in ("mkdir_all", "rmdir_all") for st in case["steps"])
-            py_safe = alphabet and not (feats & set(F.KNOWN_CLASSES)) and not any(dur_flags)
+            py_safe = alphabet and not (feats & set(F.THEOREM_EXCLUDED)) and not any(dur_flags)
             if py_safe != bool(coq_safe):
                 return "side condition of c07_crash_image: python says %s, dsafe (Coq) says %s (features %s)" % (
                     py_safe, bool(coq_safe), sorted(feats))
+        if "RenameFileAny" in feats_all:
+            # the python durable model adds the rule "a rename becomes durable with the new name" (a file has
+            # one durable name); FsDurable.v does not interpret successful file renames (outside the theorem)
+            return None
         exp, flags = durable_expected(case, obs)
         for i, (a, fl) in enumerate(zip(exp, flags)):
             if bool(dur_flags[i]) != fl:
@@ -186,6 +204,9 @@ class Spec(PropSpec):
         h["in_proved_alphabet_and_class_free"] = sum(
             1 for c in cases
             if not any(st[0].split("@")[0] in ("mkdir_all", "rmdir_all") for st in c["steps"])
+            and not (F.history_features(c) & set(F.THEOREM_EXCLUDED)))
+        h["class_free_with_clean_rename"] = sum(
+            1 for c in cases if "CleanRename" in F.history_features(c)
             and not (F.history_features(c) & set(F.KNOWN_CLASSES)))
         return h
 
